@@ -13,7 +13,6 @@ def cells : List Cell := [
   { name := "psd_tools.composite.blend:BLEND_FUNC", kind := .moduleMutable, writtenAtRuntime := false, readObservably := true },
   { name := "psd_tools.psd.adjustments:ADJUSTMENT_TYPES", kind := .registry, writtenAtRuntime := false, readObservably := false },
   { name := "psd_tools.psd.descriptor:TYPES", kind := .registry, writtenAtRuntime := false, readObservably := true },
-  { name := "psd_tools.psd.descriptor:_TERMS", kind := .moduleMutable, writtenAtRuntime := true, readObservably := true },
   { name := "psd_tools.psd.effects_layer:EffectsLayer.EFFECT_TYPES", kind := .classMutable, writtenAtRuntime := false, readObservably := true },
   { name := "psd_tools.psd.engine_data:TOKEN_CLASSES", kind := .registry, writtenAtRuntime := false, readObservably := true },
   { name := "psd_tools.psd.image_resources:TYPES", kind := .registry, writtenAtRuntime := false, readObservably := true },
